@@ -57,7 +57,7 @@ public:
         return m_expiration < rhs.m_expiration;
     }
     bool operator <= (const Timeout& rhs) const {
-        return m_expiration < rhs.m_expiration;
+        return m_expiration <= rhs.m_expiration;
     }
     bool operator > (const Timeout& rhs) const {
         return m_expiration > rhs.m_expiration;
